@@ -56,10 +56,10 @@ Definition cand_b (q : query) (ign : list utxo_ref) (u : utxo) : bool :=
   && (if q_coll q then is_only_naked (u_assets u) else true)
   && match q_addr q with
      | Some _ => true
-     | None => forallb (fun kv => match kv.1 with
+     | None => match q_refs q with _ :: _ => true | [] => forallb (fun kv => match kv.1 with
                                   | Defined p n => if 0 <? kv.2 then 0 <? get0 (u_assets u) kv.1 else true
                                   | _ => true end)
-                       (map_to_list (target_of q))
+                       (map_to_list (target_of q)) end
      end.
 
 Definition coversb (a target : assets) : bool :=
